@@ -180,6 +180,7 @@ pub fn c06(g: &mut Gen) {
         lines.push("ser sizes A".to_string()); lines.push("ser reload A Y extra=2".to_string()); lines.push("ser seq A B A".to_string());
         g.group(lines);
     }
+    long_partial_superblocks(g);
     // structures whose loaders REBUILD what is not stored: run-length vectors with more than 8 blocks (the three sample
     // indexes have more than one sample only then), and bitvectors / sparse vectors with several select superblocks
     for nruns in (if g.thorough { vec![300usize, 700, 3300] } else { vec![300usize, 700] }) {
@@ -235,8 +236,30 @@ pub fn big_options(g: &mut Gen) {
     g.group(lines);
 }
 
+/// bitvectors of >= 83,521 bits whose last (or only) select superblock is LONG and partially filled — for set bits
+/// (very sparse) and for unset bits (very dense): written with every subset of supports, reloaded, compared, queried
+pub fn long_partial_superblocks(g: &mut Gen) {
+    for (len, dense) in [(100_000usize, false), (100_000, true), (200_000, false)] {
+        let mut bits = vec![dense; len];
+        for p in [0usize, 1, 70_000, len - 1] { bits[p] = !dense; }
+        if len > 150_000 { for p in (100_000..100_000 + 4096).step_by(1) { bits[p] = !dense; } }   // a full dense superblock, then a sparse tail
+        let mut lines = vec![format!("bv FULL from_raw {} {}", len, words_of_bits(&bits)), "bv FULL enable rsz".to_string()];
+        for (si, sub) in ["s", "z", "sz", "rsz"].iter().enumerate() {
+            lines.push(format!("bv A{} from_raw {} {}", si, len, words_of_bits(&bits)));
+            lines.push(format!("bv A{} enable {}", si, sub));
+            lines.push(format!("ser sizes A{}", si));
+            lines.push(format!("ser reload A{} L{} extra=1", si, si));
+            lines.push(format!("bv L{} supports", si));
+            lines.push(format!("bv L{} enable rsz", si)); lines.push(format!("bv L{} eq FULL", si));
+            for r in [0usize, 1, 2, 3, 4, 4095, 4096, 4099, 4100, len / 2, len - 5, len - 4] { lines.push(format!("bv L{} select {}", si, r)); lines.push(format!("bv L{} select0 {}", si, r)); }
+        }
+        g.group(lines);
+    }
+}
+
 pub fn c19(g: &mut Gen) {
     big_options(g);
+    long_partial_superblocks(g);
     // 8 subsets of supports at write time x orders of enable_* interleaved with serialize / load
     let orders = ["rsz", "rzs", "srz", "szr", "zrs", "zsr"];
     for (len, kind) in [(0usize, 0usize), (1, 1), (70, 2), (600, 3), (5000, 2), (4200, 4)] {
@@ -347,6 +370,14 @@ pub fn c14(g: &mut Gen) {
     let by = doc_bytes(b"0123456789abcdefXYZ");
     for k in 1..by.len() { lines.push(format!("map bytes 0 trunc={} x=err : {}", k, ws(&by))); lines.push(format!("map str 0 trunc={} x=err : {}", k, ws(&by))); }
     g.group(lines);
+    // serialize_to (the path-based entry point) onto a device that is full: the error must surface, whatever buffering
+    // the implementation uses
+    for size in [0usize, 1, 64, 700, 9000] {
+        let mut lines = Vec::new();
+        let names = zoo(g, &mut lines, size);
+        for n in &names { lines.push(format!("ser fullto {}", n)); }
+        g.group(lines);
+    }
     // buffered writers under a file size limit never report success for an incomplete file
     let limits: Vec<u64> = if g.thorough { (2..40).map(|k| k * 8).collect() } else { vec![16, 24, 32, 40, 64, 72, 128, 200, 264] };
     for lim in limits {
